@@ -64,19 +64,6 @@ type Doc struct {
 var words = []string{"", "a", "ab", "abc", "foo", "bar", "baz", "foobar", "web-1", "web-2", "db", "10.0.0.1", "x y", "Ünï", "true", "42", "red", "blue"}
 var keyWords = []string{"a", "b", "c", "foo", "bar", "x", "name", "tags", "meta", "n", "k1", "k2", "k3", "co:lon", "with space", "ünï", "0"}
 
-// DatumSpec names a deterministic constructor; Build(spec) always returns a
-// structurally identical, freshly allocated value, so a pristine copy of any
-// datum is obtained by building it again (and replaying Muts).
-type DatumSpec struct {
-	Gen  string   `json:"gen"`
-	Seed uint64   `json:"seed"`
-	Muts []uint64 `json:"muts,omitempty"`
-}
-
-func (d DatumSpec) String() string {
-	return fmt.Sprintf("%s/%d+%d", d.Gen, d.Seed, len(d.Muts))
-}
-
 // DatumGens lists the constructors for Evaluate data.
 var DatumGens = []string{"doc", "docptr", "json", "jsonnum", "tmap:int", "tmap:slice", "tmap:map", "tmap:ptr", "tmap:any", "tmap:inner"}
 
